@@ -332,12 +332,31 @@ func rootValue(data interface{}) interface{} {
 	return valueOf(reflect.ValueOf(data))
 }
 
+// fieldByName is rv.FieldByName(name), except that a field promoted through a
+// nil embedded pointer is absent (reflect's FieldByName panics on it).
+func fieldByName(rv reflect.Value, name string) reflect.Value {
+	sf, ok := rv.Type().FieldByName(name)
+	if !ok {
+		return reflect.Value{}
+	}
+	for i, x := range sf.Index {
+		if i > 0 && rv.Kind() == reflect.Ptr {
+			if rv.IsNil() {
+				return reflect.Value{}
+			}
+			rv = rv.Elem()
+		}
+		rv = rv.Field(x)
+	}
+	return rv
+}
+
 func (intr *treeInterpreter) fieldFromStruct(key string, value interface{}) (interface{}, error) {
 	rv := reflect.ValueOf(value)
 	first, n := utf8.DecodeRuneInString(key)
 	fieldName := string(unicode.ToUpper(first)) + key[n:]
 	if rv.Kind() == reflect.Struct {
-		v := rv.FieldByName(fieldName)
+		v := fieldByName(rv, fieldName)
 		if !v.IsValid() || !v.CanInterface() {
 			return nil, nil
 		}
@@ -348,7 +367,7 @@ func (intr *treeInterpreter) fieldFromStruct(key string, value interface{}) (int
 			return nil, nil
 		}
 		rv = rv.Elem()
-		v := rv.FieldByName(fieldName)
+		v := fieldByName(rv, fieldName)
 		if !v.IsValid() || !v.CanInterface() {
 			return nil, nil
 		}
